@@ -1,4 +1,5 @@
 import KyupyVerif.Model.WaveIO
+import KyupyVerif.Proofs.WaveIOCheck
 /-! Driver extension for C06 (CPU vs GPU-kernel code path of `wave_sim.py`): runs the models of `Model/WaveIO.lean` on the
 arrays of a real simulator object.
 
@@ -10,7 +11,13 @@ integer numerator over the denominator `den`. Lanes are separated by `;`, rows b
 * `wio-ppi <cpu|gpu> <sims> <bx> <by> <sLen> <nIo> <ppiLocs> <ppoLocs> <time> <S>` — `S` rows `ini,time,fin,cap`.
   Answer: `S` after `s_ppo_to_ppi(time)`.
 * `wio-cap <cpu|gpu> <time> <cells>` — capture record of a region holding these cells: `init eat lst final val ovl`.
-* `wio-read <cells>` — the waveform the cells encode, `ents:term`. -/
+* `wio-read <cells>` — the waveform the cells encode, `ents:term`.
+* `wio-dataset <nsets> <seed> <modes csv> <simctl0 csv>` — `selectDataset` per lane: the data-set index, `-` for `none`.
+* `wio-hyp <den> <sims> <sLen> <nIo> <ppiLocs> <ppoLocs> <ppoCaps> <S>` — the table hypotheses of the whole-array theorems of
+  C06 evaluated on these tables: `disj=<regionsDisjointB> rows=<stateRowsCapturedB> caps=<capsPositiveB> flags=<flagsOKB> transfer=<transferRowsB>`.
+* `wio-ctos <cpu|gpu> <time> <sims> <bx> <by> <sLen> <nIo> <ppoLocs> <ppoCaps> <C>` — `c_to_s(time, sd=0)` on the raw cells `C` of every
+  lane: per lane (`;`) per row (`/`) the capture record `init eat lst final val ovl` (fields joined by `,`), `-` for a row that is
+  not captured (keeps its old record). -/
 namespace KV.Drv.WaveIO
 open KV.Wave KV.WaveIO
 
@@ -77,6 +84,35 @@ def handle (cmd : String) (args : List String) : Option String :=
   | "wio-read", [cellsS] =>
     let w := readWave (parseCells cellsS)
     some s!"{showCells w.ents}:{showT w.term}"
+  | "wio-dataset", [nsets, seed, modes, s0] =>
+    let ms := parseInts modes; let ss := parseInts s0
+    let n := Nat.max ms.length ss.length
+    some (",".intercalate ((List.range n).map fun k =>
+      match selectDataset nsets.toNat! (ms.getD k 0).toNat seed.toNat! (ss.getD k 0).toNat with
+      | some d => toString d
+      | none => "-"))
+  | "wio-hyp", [den, sims, sLen, nIo, ppiS, ppoS, capS, sS] =>
+    let ppiA := (parseInts ppiS).toArray; let ppoA := (parseInts ppoS).toArray; let capA := (parseInts capS).toArray
+    let tb : Tab := { sLen := sLen.toNat!, nIo := nIo.toNat!, cLen := 0, ppiLoc := locFn ppiA, ppoLoc := locFn ppoA,
+                      ppoCap := fun y => (capA.getD y 0).toNat }
+    let sA := parseS sS
+    let s := sOf sA
+    some s!"disj={regionsDisjointB tb} rows={stateRowsCapturedB tb} caps={capsPositiveB tb} flags={flagsOKB tb den.toNat! sims.toNat! s} transfer={transferRowsB tb}"
+  | "wio-ctos", [path, time, sims, bx, by_, sLen, nIo, ppoS, capS, cS] =>
+    let sims := sims.toNat!; let sLen := sLen.toNat!
+    let ppoA := (parseInts ppoS).toArray; let capA := (parseInts capS).toArray
+    let tb : Tab := { sLen := sLen, nIo := nIo.toNat!, cLen := 0, ppiLoc := fun _ => -1, ppoLoc := locFn ppoA,
+                      ppoCap := fun y => (capA.getD y 0).toNat }
+    let cA := parseC cS
+    let c := cOf cA
+    if bx.toNat! == 0 || by_.toNat! == 0 then some "bad-args" else
+    let r : Nat → Nat → Option Cap :=
+      if path == "cpu" then fun x => if x < sims then cpuCToS tb (parseT time) (c x) (fun _ => none) else fun _ => none
+      else gpuCToS tb (parseT time) sims bx.toNat! by_.toNat! c (fun _ _ => none)
+    some (";".intercalate ((List.range sims).map fun x => "/".intercalate ((List.range sLen).map fun y =>
+      match r x y with
+      | some cp => (showCap cp).replace " " ","
+      | none => "-")))
   | "wio-stoc", _ => some "bad-args"
   | "wio-ppi", _ => some "bad-args"
   | "wio-cap", _ => some "bad-args"
